@@ -59,6 +59,7 @@ class SList(Model):
                 raise Unsupported("slice step")
             lo = norm_index(it, lo, self.length, clamp=True)
             hi = norm_index(it, hi, self.length, clamp=True)
+            lo, hi = clamp_slice(it, lo, hi, self.length)
             base = self.element
             ln = z3.If(to_num(hi) - to_num(lo) >= 0, to_num(hi) - to_num(lo), z3.IntVal(0))
             return SList(z3.simplify(ln), lambda k: base(z3.simplify(k + to_num(lo))), self.tags)
@@ -140,6 +141,17 @@ def norm_index(it, idx, length, clamp=False):
             return idx
         return z3.simplify(to_num(length) + idx)
     raise PyRaise(ExcVal('TypeError', ("bad index %r" % (idx,),)))
+
+
+def clamp_slice(it, lo, hi, length):
+    """python clamps slice bounds to [0, len] and never raises; the plain bounds are kept where they are provably inside"""
+    n = to_num(length)
+    lo, hi = to_num(lo), to_num(hi)
+    inside = z3.And(lo >= 0, lo <= n, hi >= 0, hi <= n)
+    if z3.is_true(z3.simplify(inside)) or it.ctx._check(z3.Not(inside))[0] == z3.unsat:
+        return lo, hi
+    cl = lambda v: z3.If(v < 0, 0, z3.If(v > n, n, v))
+    return z3.simplify(cl(lo)), z3.simplify(cl(hi))
 
 
 class SMutList(Model):
@@ -432,9 +444,19 @@ class SArr(Model):
                 if ix.start is None and ix.stop is None:
                     ln = d
                 else:
-                    # numpy clamps slices; callers' contracts state 0 <= lo <= hi <= d
-                    it.ctx.oblige("safety/slice-within-array", z3.And(lo >= 0, lo <= hi, hi <= to_num(d)))
-                    ln = z3.simplify(hi - lo)
+                    # python / numpy clamp slices and never raise.  Where 0 <= lo <= hi <= d is provable the plain length hi - lo is
+                    # used (and the fact recorded, as before); otherwise the clamped semantics are modelled exactly -- an
+                    # out-of-range slice is legal python, so it must not be reported as a failed obligation
+                    inside = z3.And(lo >= 0, lo <= hi, hi <= to_num(d))
+                    r_, _m = it.ctx._check(z3.Not(inside))
+                    if r_ == z3.unsat:
+                        it.ctx.oblige("safety/slice-within-array", inside)
+                        ln = z3.simplify(hi - lo)
+                    else:
+                        dn = to_num(d)
+                        cl = lambda v: z3.If(v < 0, 0, z3.If(v > dn, dn, v))
+                        lo, hi = z3.simplify(cl(lo)), z3.simplify(cl(hi))
+                        ln = z3.simplify(z3.If(hi > lo, hi - lo, 0))
                     if z3.is_int_value(ln):
                         ln = ln.as_long()
                 plan.append(('all', lo))
@@ -1821,9 +1843,11 @@ class Lib(object):
             if isinstance(v, z3.ArithRef):
                 if v.is_int():
                     return v
-                it_.ctx.note_trusted("int(x): truncation toward zero; modelled as ToInt for x >= 0")
-                it_.ctx.oblige("safety/int-of-nonnegative", v >= 0)
-                return z3.ToInt(v)
+                it_.ctx.note_trusted("int(x): truncation toward zero")
+                if it_.ctx._check(z3.Not(v >= 0))[0] == z3.unsat:
+                    it_.ctx.oblige("safety/int-of-nonnegative", v >= 0)
+                    return z3.ToInt(v)
+                return z3.If(v >= 0, z3.ToInt(v), -z3.ToInt(-v))      # int() of a negative float is legal python
             raise Unsupported("int(%r)" % (v,))
 
         def _float(it_, a, k):
@@ -1872,6 +1896,8 @@ class Lib(object):
             d = {}
             if a:
                 src = a[0]
+                if getattr(src, 'clone', None) is not None and 'dict' in getattr(src, 'tags', ()) and not k:
+                    return src.clone(it_)
                 if isinstance(src, dict):
                     d.update(src)
                 else:
